@@ -143,4 +143,3 @@ func (c *copier) val(v Value) Value {
 	}
 	panic("copier: unknown value type")
 }
-
